@@ -32,7 +32,12 @@ def history_one(payload):
         for step, (i, entry) in enumerate(calls):
             d = docs[i]
             try:
-                if entry == "dict":
+                if entry == "dict_literal":
+                    # the document as a Python literal: its strings are the interpreter's interned constants (the same
+                    # objects as the literals in the validator's own source), unlike strings decoded from JSON
+                    mine = eval(compile(repr(d), "<document literal>", "eval"), {"true": True, "false": False, "null": None})
+                    got = ("ok", v.validate(schema_dict=mine))
+                elif entry == "dict":
                     mine = cp.deepcopy(d)
                     before = js.dumps(mine, sort_keys=True)
                     got = ("ok", v.validate(schema_dict=mine))
@@ -225,12 +230,12 @@ def run(ctx):
     for docs in fams:
         pool_docs = docs + rng.sample(ship, 2)
         for _ in range(2):
-            calls = [(rng.randrange(len(pool_docs)), rng.choice(["json", "json", "dict", "file", "next_id", "all_ids"])) for _ in range(rng.randint(2, 7))]
+            calls = [(rng.randrange(len(pool_docs)), rng.choice(["json", "json", "dict", "dict_literal", "file", "next_id", "all_ids"])) for _ in range(rng.randint(2, 7))]
             payloads.append({"docs": pool_docs, "calls": calls})
     # shipped documents among themselves (pipelines, imports, thread groups)
     for _ in range(60 if quick else 600):
         pool_docs = rng.sample(ship, min(5, len(ship)))
-        calls = [(rng.randrange(len(pool_docs)), rng.choice(["json", "dict", "file", "file", "next_id", "all_ids"])) for _ in range(rng.randint(2, 8))]
+        calls = [(rng.randrange(len(pool_docs)), rng.choice(["json", "dict", "dict_literal", "file", "file", "next_id", "all_ids"])) for _ in range(rng.randint(2, 8))]
         payloads.append({"docs": pool_docs, "calls": calls})
     # the same file submitted again (and again after another file), for every shipped document and family head
     heads = ship + [docs[0] for docs in fams[:20 if quick else 200]]
@@ -241,6 +246,20 @@ def run(ctx):
     for deg in ({}, [], {"standard": "only"}):
         payloads.append({"docs": [deg, ship[0]], "calls": [(0, "dict"), (0, "json"), (0, "file"), (1, "dict"), (0, "dict"), (0, "file"), (0, "json")]})
         payloads.append({"docs": [ship[1], deg], "calls": [(0, "json"), (1, "dict"), (1, "json")]})
+    # every shipped document and pipeline fault as a Python literal and as decoded JSON; a document that imports a file
+    # which exists but is not a valid schema, several times in a row
+    bad_import = dict(copy.deepcopy(ship[0]), imports=[{"file_name": "example"}])
+    payloads.append({"docs": [bad_import, ship[1]], "calls": [(0, "json"), (0, "dict"), (1, "json"), (0, "file"), (0, "json")]})
+    for d in ship:
+        payloads.append({"docs": [d], "calls": [(0, "dict_literal"), (0, "json"), (0, "dict_literal")]})
+    import pipes as _pipes
+    for i in range(40 if quick else 400):
+        if i % 2:
+            s2, name, owner, desc = _pipes.mutate_p(rng, only=("C08", "C09"), threads=(i % 4 == 1))
+        else:
+            s2 = _pipes.gen_valid_p(rng, threads=(i % 4 == 0), n_pipes=rng.choice([1, 2]))[0]
+        d = S.render(s2, random.Random(rng.randrange(1 << 30)), "mixed", False, False)
+        payloads.append({"docs": [d], "calls": [(0, "dict_literal"), (0, "json"), (0, "dict")]})
     # pipeline families: a shipped document with and without its pipelines
     for d in ship:
         if d.get("pipelines"):
@@ -302,7 +321,7 @@ def run(ctx):
             if j == 0:
                 case = I.gen_valid_i(rng, threads=(k % 3 == 0))
             else:
-                case, _, _ = I.mutate_i(rng, only=("connection_target_native", "connection_target_missing", "cycle_through_connection", "add_dependency_not_native_checkpoint"))
+                case, _, _ = I.mutate_i(rng, only=("connection_target_native", "connection_target_missing", "cycle_through_connection", "add_dependency_not_native_checkpoint", "imported_schema_invalid", "import_unreadable"))
             docs.append(I.render_i(case, ctx.repo_copy, random.Random(rng.randrange(1 << 30)), "mixed", False, False))
         for _ in range(2):
             calls = [(rng.randrange(len(docs)), rng.choice(["dict", "dict", "json", "file"])) for _ in range(rng.randint(2, 6))]
